@@ -71,6 +71,9 @@ StrTexts ==
                                                       S("g"), S("+41"), S("-41"), S(" 41"), S("4 1"), S("0x41"), S("0") } }
   \cup { Q \o <<233, 92, 110>> \o Q, Q \o <<20013, 92, 116, 233, 92, 92>> \o Q, Q \o <<128512, 92, 34, 97>> \o Q, Q \o <<233, 233, 92, 117, 123, 52, 49, 125>> \o Q,
           Q \o <<97, 233, 92, 39>> \o Q }
+  \cup { S("[") \o Q \o S("C:") \o <<92, 92>> \o Q \o S(", ") \o Q \o S("f.txt") \o Q \o S("]"),
+          Q \o <<92, 92>> \o Q \o S(" == ") \o Q \o S("b") \o Q, Q \o S("a") \o <<92>> \o Q \o S(" + ") \o Q \o S("b") \o Q,
+          S("{k: ") \o Q \o <<92, 92>> \o Q \o S(", j: ") \o Q \o <<92, 34>> \o Q \o S("}") }
   \cup { Q \o S("\\u{41") \o Q, Q \o S("\\u41") \o Q, Q \o S("\\u") \o Q, Q \o S("\\u{41}}") \o Q, Q \o S("a\\u{41}b\\u{42}") \o Q,
          Q \o S("\\u{41") , Q \o S("abc"), Q, Q \o S("a") \o <<92>> \o Q, Q \o <<92, 92>> \o Q, Q \o <<92, 92, 92>> \o Q,
          Q \o S("a//b") \o Q, Q \o S("a") \o <<10>> \o S("//b") \o Q, Q \o Q, Q \o Q \o Q, Q \o S("a") \o Q \o S("b") \o Q }
